@@ -59,6 +59,9 @@ pub fn run_scene<F: Fn(&StepViolation) -> bool>(prop: &str, scene: &Scene, owns:
                     let fid = classify(scene, i, &v);
                     return Err(Violation::new(format!("{}/{}", prop_kind(&v.kind), v.clause), scene.to_string(), format!("step {} ({}): {}\n{}", i, op.kind(), v.clause, v.detail)).finding(fid));
                 } else {
+                    if std::env::var("VERIF_DEBUG_FOREIGN").is_ok() {
+                        eprintln!("FOREIGN {} step {} {:?} {} :: {} :: {}", prop, i, v.kind, v.clause, v.detail.lines().next().unwrap_or(""), scene);
+                    }
                     st.foreign = true;
                     return Ok(st);
                 }
